@@ -255,7 +255,7 @@ pub(crate) fn is_farm_expired(
         .query_wasm_smart(
             config.epoch_manager_addr.to_string(),
             &QueryMsg::Epoch {
-                id: farm.preliminary_end_epoch + 1u64,
+                id: farm.preliminary_end_epoch.saturating_add(1u64),
             },
         )?;
 
